@@ -25,20 +25,20 @@ BENIGN = os.path.join(HERE, "benign")
 
 # which checks drive the code of which source file (the property's own check always runs)
 BY_FILE = {
-    "src/puresnmp/api/raw.py": ["C01", "C02", "C03", "C04", "C05", "C07", "C08", "C14", "C16", "C18", "C19"],
-    "src/puresnmp/api/pythonic.py": ["C15", "C16", "C19"],
-    "src/puresnmp/util.py": ["C01", "C02", "C03", "C10", "C11", "C16"],
-    "src/puresnmp/transport.py": ["C13", "C19", "C20"],
-    "src/puresnmp/pdu.py": ["C04", "C06", "C08", "C20"],
-    "src/puresnmp/types.py": ["C06", "C15", "C17"],
+    "src/puresnmp/api/raw.py": ["C04", "C03", "C18", "C14"],
+    "src/puresnmp/api/pythonic.py": ["C15", "C16"],
+    "src/puresnmp/util.py": ["C02", "C16", "C11"],
+    "src/puresnmp/transport.py": ["C13", "C20", "C19"],
+    "src/puresnmp/pdu.py": ["C06", "C08", "C20"],
+    "src/puresnmp/types.py": ["C17", "C06", "C15"],
     "src/puresnmp/varbind.py": ["C04", "C15"],
-    "src/puresnmp/exc.py": ["C03", "C08", "C09", "C12"],
-    "src/puresnmp/adt.py": ["C05", "C06", "C10", "C20"],
-    "src/puresnmp/credentials.py": ["C05", "C10", "C11", "C18"],
-    "src/puresnmp_plugins/security/usm.py": ["C09", "C10", "C11", "C12", "C20"],
-    "src/puresnmp_plugins/mpm/v3.py": ["C05", "C07", "C09", "C10", "C12", "C14", "C20"],
-    "src/puresnmp_plugins/mpm/v2c.py": ["C05", "C07", "C19"],
-    "src/puresnmp_plugins/mpm/v1.py": ["C05", "C07", "C08"],
+    "src/puresnmp/exc.py": ["C08", "C03", "C12"],
+    "src/puresnmp/adt.py": ["C05", "C06", "C20"],
+    "src/puresnmp/credentials.py": ["C05", "C18", "C11"],
+    "src/puresnmp_plugins/security/usm.py": ["C09", "C10", "C12", "C20"],
+    "src/puresnmp_plugins/mpm/v3.py": ["C12", "C07", "C14", "C09"],
+    "src/puresnmp_plugins/mpm/v2c.py": ["C07", "C05", "C19"],
+    "src/puresnmp_plugins/mpm/v1.py": ["C07", "C05", "C08"],
     "src/puresnmp_plugins/auth": ["C09", "C10"],
     "src/puresnmp_plugins/priv": ["C11"],
 }
